@@ -700,7 +700,8 @@ def CASES(tier, seed):
                     for herm in ((False, True) if (o1, o2) in ((['Sp'], ['Sm']), (['Cd'], ['C']), (['Cdu'], ['Cu'])) and opstr is None else (False, )):
                         kw = dict(ops1=o1, ops2=o2, opstr=opstr, str_on_first=sof, hermitian=herm)
                         if bc == 'infinite':
-                            kw.update(sites1=[0, 1], sites2=[0, 1, 2, 3] if opstr is None else [0, 1, 2])
+                            # (charge-free chi=2 tensors: 4-site windows are too expensive for the quick tier)
+                            kw.update(sites1=[0, 1], sites2=[0, 1, 2, 3] if (opstr is None and (kind != 'spin' or thorough)) else [0, 1, 2])
                             if herm:
                                 kw.update(sites1=[0, 1, 2], sites2=[0, 1, 2])
                         add(f"corr[{'.'.join(o1)}|{'.'.join(o2)},opstr={opstr},first={sof},herm={herm}][{gn}]", 'corr_case', g, **kw)
@@ -721,7 +722,7 @@ def CASES(tier, seed):
             else:
                 tps = [([('Sp', 0)], [('Sm', 0)])]
                 tp2 = ([('Sp', 0), ('Sz', 1)], [('Sm', 0)], [('Sz', 0)])
-            W = L if bc != 'infinite' else 2 * L
+            W = L if bc != 'infinite' else (2 * L if (kind != 'spin' or thorough) else 3)
             for a, (tl, tr) in enumerate(tps):
                 add(f'termcorr.right{a}[{gn}]', 'termcorr_case', g, mode='right', term_L=tl, term_R=tr, i_L=0, j_R=list(range(1, W))[::-1])
                 add(f'termcorr.left{a}[{gn}]', 'termcorr_case', g, mode='left', term_L=tl, term_R=tr, i_L=list(range(0, W - 1)), j_R=W - 1)
@@ -772,14 +773,23 @@ def CASES(tier, seed):
             else:
                 ts = [[('Nu', 0)], [('Cdu', 0), ('Cu', 1)], [('Cdd', L - 1), ('Cd', 0)]]
             add(f'terms_sum.mps[{gn}]', 'terms_sum_case', g, mode='mps', terms=ts)
-            add(f'terms_sum.env[{gn}]', 'terms_sum_case', g, mode='env', terms=ts, cplx_strength=True)
-        # ---- sampling
-        for first in range(L):
-            for last in range(first, L if bc != 'infinite' else min(first + 3, 2 * L)):
-                wmax = 3 if kind in ('spinSz', 'fermN', 'fermP', 'shfNSz', 'spinP') else 2  # charge-free chi=2: polynomials of a 3-site
-                if last - first + 1 > wmax:                                                   # window with sqrt reductions are too slow
-                    continue
-                for ca in (True, False):
-                    add(f'sample[{first}..{last},complex_amplitude={ca}][{gn}]', 'sample_case', g, first=first, last=last, complex_amplitude=ca)
-                    cases[-1]['opts'].update(guided_with_side=True, lazy_abs=True, named_zero_tests=True)
+            if kind != 'spin' or thorough:
+                add(f'terms_sum.env[{gn}]', 'terms_sum_case', g, mode='env', terms=ts, cplx_strength=True)
+        # ---- sampling (cost: pure-Python polynomial arithmetic with sqrt reductions, so the windows are kept short)
+        cons = kind in ('spinSz', 'fermN', 'fermP', 'shfNSz', 'spinP')
+        wins = [(0, 0), (0, 1), (L - 1, L - 1)]
+        if bc == 'infinite':
+            wins += [(L - 1, L)]  # across the unit-cell boundary
+        elif L >= 3:
+            wins += [(1, 2)]
+        if cons and (bc == 'finite' or thorough):
+            wins += [(0, 2)] if (bc == 'infinite' or L >= 3) else []
+        for first, last in sorted(set(wins)):
+            if bc != 'infinite' and last > L - 1:
+                continue
+            for ca in (True, False):
+                if not ca and last > first and not (cons and bc == 'finite') and not thorough:
+                    continue  # complex_amplitude=False on longer windows: see known finding; checked on the finite chains
+                add(f'sample[{first}..{last},complex_amplitude={ca}][{gn}]', 'sample_case', g, first=first, last=last, complex_amplitude=ca)
+                cases[-1]['opts'].update(guided_with_side=True, lazy_abs=True, named_zero_tests=True, profile=(last == first))
     return cases
